@@ -825,6 +825,7 @@ func narrowLengthArithmetic(p *Program, fn *ssa.Function) (int, []Finding) {
 				narrow = true
 			}
 			// one operand decoded from input?
+			depthDecoded := 0
 			var decoded func(v ssa.Value) bool
 			decoded = func(v ssa.Value) bool {
 				v = stripConv(v)
@@ -843,6 +844,21 @@ func narrowLengthArithmetic(p *Program, fn *ssa.Function) (int, []Finding) {
 					cl := calleeOf(&c.Call)
 					if cl.Pkg == "encoding/binary" && (strings.HasPrefix(cl.Name, "Uint") || strings.HasPrefix(cl.Name, "Int")) {
 						return true
+					}
+				}
+				// the result of a function of the module that returns a decoded value
+				// (readVectorLen(r) (uint32, int64, error))
+				if c, idx := callResult(v); c != nil && depthDecoded < 2 {
+					if h := c.Call.StaticCallee(); h != nil && h.Blocks != nil && strings.HasPrefix(fnPkgPath(h), modPath) {
+						depthDecoded++
+						defer func() { depthDecoded-- }()
+						for _, hb := range h.Blocks {
+							if ret, ok := hb.Instrs[len(hb.Instrs)-1].(*ssa.Return); ok && idx < len(ret.Results) {
+								if decoded(retValue(ret, idx)) {
+									return true
+								}
+							}
+						}
 					}
 				}
 				return false
